@@ -9,6 +9,9 @@
 
 mod exec;
 mod gen;
+mod hunt;
+mod hunt2;
+mod naive;
 mod tab;
 mod two;
 
@@ -149,6 +152,29 @@ fn main() {
             }
             w.flush().unwrap();
             println!("{}", json!({"episodes": eps.len(), "ops": nops}));
+        }
+        "hunt" => {
+            // vdrive hunt <PROP> <seed> <budget_ms> <out_script>
+            exec::silence_panics();
+            let prop = &args[2];
+            let seed: u64 = args[3].parse().expect("seed");
+            let budget: u64 = args[4].parse().expect("budget");
+            let res = if ["C12", "C13", "C14", "C15", "C16"].contains(&prop.as_str()) {
+                hunt2::hunt(prop, seed, budget)
+            } else {
+                hunt::hunt(prop, seed, budget)
+            };
+            let mut w = BufWriter::new(std::fs::File::create(&args[5]).expect("create script"));
+            let mut nops = 0usize;
+            for (k, e) in res.episodes.iter().enumerate() {
+                writeln!(w, "{}", json!({"op": "reset", "ep": k, "n": e.n, "tys": e.tys, "prop": prop, "w": gen::weight(prop, e)})).unwrap();
+                for op in &e.ops {
+                    writeln!(w, "{}", op).unwrap();
+                    nops += 1;
+                }
+            }
+            w.flush().unwrap();
+            println!("{}", json!({"episodes": res.episodes.len(), "ops": nops, "screened": res.screened, "suspicious": res.suspicious}));
         }
         "run" => {
             exec::silence_panics();
